@@ -169,15 +169,59 @@ Proof.
   assert (R : forall w x, q_closed x = false -> q_wire x = w ->
             fold_left qstep (repeat QReader (S (length w))) x
             = {| q_wire := []; q_recvq := q_recvq x ++ w; q_closed := true; q_got := q_got x; q_errs := q_errs x |}).
-  { induction w as [|p w IH]; intros x Hc Hw; cbn [length repeat fold_left qstep]; rewrite Hc, Hw.
-    - rewrite app_nil_r. reflexivity.
-    - rewrite IH by reflexivity. cbn. rewrite <- app_assoc. reflexivity. }
+  { induction w as [|p w IH]; intros x Hc Hw;
+      [cbn [length repeat fold_left]
+      |change (repeat QReader (S (length (p :: w)))) with (QReader :: repeat QReader (S (length w))); cbn [fold_left]].
+    - unfold qstep. rewrite Hc, Hw. rewrite app_nil_r. reflexivity.
+    - replace (qstep x QReader)
+        with {| q_wire := w; q_recvq := q_recvq x ++ [p]; q_closed := false; q_got := q_got x; q_errs := q_errs x |}
+        by (unfold qstep; rewrite Hc, Hw; reflexivity).
+      rewrite IH by reflexivity. cbn. rewrite <- app_assoc. reflexivity. }
   rewrite (R wire (qinit wire) eq_refl eq_refl). cbn [qinit q_recvq q_got q_errs app].
   assert (P : forall q g, fold_left qstep (repeat QRead (S (length q)))
               {| q_wire := []; q_recvq := q; q_closed := true; q_got := g; q_errs := 0 |}
             = {| q_wire := []; q_recvq := []; q_closed := true; q_got := g ++ q; q_errs := 1 |}).
-  { induction q as [|p q IH]; intros g; cbn [length repeat fold_left qstep q_recvq q_closed q_wire q_got q_errs].
-    - rewrite app_nil_r. reflexivity.
-    - rewrite IH. rewrite <- app_assoc. reflexivity. }
+  { induction q as [|p q IH]; intros g;
+      [cbn [length repeat fold_left]
+      |change (repeat QRead (S (length (p :: q)))) with (QRead :: repeat QRead (S (length q))); cbn [fold_left]].
+    - cbn. rewrite app_nil_r. reflexivity.
+    - cbn [qstep q_recvq q_closed q_wire q_got q_errs]. rewrite IH. rewrite <- app_assoc. reflexivity. }
   rewrite P. cbn. split; reflexivity.
 Qed.
+
+(* ------------------------------------------------------------------ the error returns in the source *)
+From Coq Require Import String.
+From GoMC Require Import Gen.Gate Model.C19_syntax.
+Local Open Scope string_scope.
+(* what a function returns when its (first) ReadPacket fails: the statement after the read is
+   `if err != nil { return r }`; looked for at top level, inside `for {}` and inside `for i < n` *)
+Fixpoint read_error_return_flat (ps : list gstmt) : option string :=
+  match ps with
+  | GRead :: GIf c [GReturn r] [] :: _ => if String.eqb c "err != nil" then Some r else None
+  | _ :: t => read_error_return_flat t
+  | [] => None
+  end.
+Fixpoint read_error_return (ps : list gstmt) : option string :=
+  match read_error_return_flat ps with
+  | Some r => Some r
+  | None =>
+      match ps with
+      | GLoop body :: _ => read_error_return_flat body
+      | GLoopN _ body :: _ => read_error_return_flat body
+      | _ :: t => read_error_return t
+      | [] => None
+      end
+  end.
+(* every function of the gate and of the dispatcher returns an error (its own, naming the stage where
+   it has one) when its ReadPacket fails - never continues, never swallows it *)
+Theorem error_returns_in_source :
+  read_error_return Gate.bot_join_login = Some "LoginErr{receiving,err}" /\
+  read_error_return Gate.bot_join_configuration = Some "ConfigErr{'config custom payload',err}" /\
+  read_error_return Gate.bot_ping_and_list = Some "nil,0,fmt.Errorf('bot: recv list packect fail: %v',err)" /\
+  read_error_return Gate.server_handshake = Some "0,0,err" /\
+  read_error_return Gate.server_accept_login = Some "" /\
+  read_error_return Gate.server_accept_list_ping = Some "" /\
+  read_error_return Gate.server_accept_config = Some "err" /\
+  read_error_return Gate.bot_handle_game = Some "err" /\
+  read_error_return Gate.bot_handle_bundle_packets = Some "err".
+Proof. repeat split; reflexivity. Qed.
